@@ -69,9 +69,12 @@ def mapO {α β} (g : α → Option β) : List α → Option (List β)
       | none => none
       | some ys => some (y :: ys)
 
-/-- `_unravel(v, shape)` -/
+/-- `_unravel(v, shape)`.  Python's `()` is not nested (`is_nested(()) = False`), so a "nested shape
+    without blocks" is the 0-d shape: `jnp.reshape(v, ())`.  (A block array without blocks has no
+    `shape`/`dtype` in the first place: `minimize` raises `IndexError`.) -/
 def unravel {α} (v : List α) : Shape → Option (Val α)
   | .flat s => (reshape v s).map Val.arr
+  | .nested [] => (reshape v []).map Val.arr
   | .nested ss =>
     let idx := (cumsumFrom 0 (ss.map sizeOf)).dropLast
     let pieces := splitIdx 0 idx v
@@ -134,6 +137,21 @@ def result {α} (c0 : Container α) (v : List α) : Option (Container α) :=
     `func_(_unravel(v, x0_shape))` with `func_ = func ∘ _join_real_imag` for a complex start -/
 def objective {α ρ} (func : Container α → ρ) (c0 : Container α) (v : List α) : Option ρ :=
   (result c0 v).map func
+
+/-- … with the extra positional arguments of `args=` handed through unchanged
+    (`wrapper(x, *args)` → `val_func(_unravel(x, shape), *args)`; `func_ = lambda x, *args: func(join(x), *args)`) -/
+def objectiveArgs {α ρ A} (func : Container α → A → ρ) (c0 : Container α) (v : List α) (args : A) : Option ρ :=
+  (result c0 v).map (fun c => func c args)
+
+/-- `minimize_scalar`'s wrapper `f`: `y.item() if y.ndim == 0 else y[0].item()` — the value of a
+    0-d result; otherwise the single entry of the first slice (`none` = the real code raises) -/
+def scalarOf {α} (y : Arr α) : Option α :=
+  match y.shape with
+  | [] => y.data[0]?
+  | k :: s =>
+    if k = 0 then none                      -- `y[0]`: IndexError
+    else if sizeOf s = 1 then y.data[0]?    -- `y[0].item()`
+    else none                               -- `.item()` of an array with several entries: ValueError
 
 /-- methods for which `minimize` passes the jax gradient (`jac=True`).  scipy resolves method names
     case-insensitively (`meth = method.lower()`), and so does the routing (`method.lower() in …`) -/
